@@ -171,6 +171,15 @@ func TestProp(t *testing.T) {
 
 	sem := make(chan struct{}, 400)
 	var wg sync.WaitGroup
+	type candidate struct {
+		a    assignment
+		ck   string
+		fp   string
+		what string
+		d    map[string]any
+	}
+	var cands []candidate
+	var candMu sync.Mutex
 	for _, a := range as {
 		ck := a.String()
 		if !r.Mine(ck) {
@@ -181,10 +190,36 @@ func TestProp(t *testing.T) {
 		go func(a assignment, ck string) {
 			defer wg.Done()
 			defer func() { <-sem }()
-			runCase(r, k, kt, a, ck)
+			runCase(r, k, kt, a, ck, false, func(fp, what string, d map[string]any) {
+				if timingSensitive(fp) {
+					// the outcome depends on every endpoint answering within the library's 5 s: confirm it without the other 399 cases
+					candMu.Lock()
+					cands = append(cands, candidate{a, ck, fp, what, d})
+					candMu.Unlock()
+					return
+				}
+				r.Violation(fp, what, d)
+			})
 		}(a, ck)
 	}
 	wg.Wait()
+	for _, c := range cands {
+		again := 0
+		for i := 0; i < 2; i++ {
+			runCase(r, k, kt, c.a, c.ck, true, func(fp, what string, d map[string]any) {
+				if fp == c.fp {
+					again++
+				}
+			})
+		}
+		if again == 2 {
+			c.d["reproduced_in_isolation"] = "2 of 2 re-runs"
+			r.Violation(c.fp, c.what, c.d)
+		} else {
+			r.Inc("failure_under_load_not_reproduced_in_isolation")
+			r.Note(fmt.Sprintf("%s: '%s' was observed once with 400 cases in flight and %d of 2 times alone: counted as a timing artefact of the harness, not judged", c.ck, c.fp, again))
+		}
+	}
 	r.Exhaustive("all assignments for 1 KDC x 3 preference limits")
 	r.Require("outcome_success", 500)
 	r.Require("outcome_failure", 300)
@@ -193,7 +228,10 @@ func TestProp(t *testing.T) {
 	r.Require("udp_toobig_tcp_success", 5)
 }
 
-func runCase(r *vh.Run, k *simkdc.KDC, kt *keytab.Keytab, a assignment, ck string) {
+// runCase runs one assignment. quiet re-runs (confirmation of a timing-sensitive verdict in isolation) record nothing but the
+// violation, which goes to viol.
+func runCase(r0 *vh.Run, k *simkdc.KDC, kt *keytab.Keytab, a assignment, ck string, quiet bool, viol func(fp, what string, d map[string]any)) {
+	r := recorder{r0, quiet}
 	var eps []*simkdc.Endpoint
 	defer func() {
 		for _, e := range eps {
@@ -253,7 +291,7 @@ func runCase(r *vh.Run, k *simkdc.KDC, kt *keytab.Keytab, a assignment, ck strin
 	}
 	d := map[string]any{"case": ck, "assignment": a.String(), "result": fmt.Sprint(opErr), "attempts_observed": att}
 	if pnc {
-		r.Violation(fmt.Sprintf("C12|panic|%s|%s", pw, vh.PanicClass(pv)), "client panicked: "+pv, d)
+		viol(fmt.Sprintf("C12|panic|%s|%s", pw, vh.PanicClass(pv)), "client panicked: "+pv, d)
 		return
 	}
 	if opErr != nil && strings.HasPrefix(opErr.Error(), "setup:") {
@@ -279,17 +317,17 @@ func runCase(r *vh.Run, k *simkdc.KDC, kt *keytab.Keytab, a assignment, ck strin
 	switch outcome {
 	case "success":
 		if !okS {
-			r.Violation("C12|success-without-working-endpoint|"+first, "the exchange succeeded although no endpoint answers correctly on a permitted transport", d)
+			viol("C12|success-without-working-endpoint|"+first, "the exchange succeeded although no endpoint answers correctly on a permitted transport", d)
 			return
 		}
 	case "krb_error_6":
 		if !okK {
-			r.Violation("C12|krb-error-not-sent|"+first, "a KRB-ERROR was surfaced that no endpoint sent", d)
+			viol("C12|krb-error-not-sent|"+first, "a KRB-ERROR was surfaced that no endpoint sent", d)
 			return
 		}
 	default:
 		if !okF && !okS {
-			r.Violation("C12|krb-error-not-surfaced|"+first, "no endpoint answers correctly and one sends KRB-ERROR 6, but the call failed with an error that is not that KDC error: "+opErr.Error(), d)
+			viol("C12|krb-error-not-surfaced|"+first, "no endpoint answers correctly and one sends KRB-ERROR 6, but the call failed with an error that is not that KDC error: "+opErr.Error(), d)
 			return
 		}
 		if !okF {
@@ -297,14 +335,14 @@ func runCase(r *vh.Run, k *simkdc.KDC, kt *keytab.Keytab, a assignment, ck strin
 			if carries(opErr, 52) {
 				cls = "response-too-big-surfaced"
 			}
-			r.Violation("C12|failed-although-endpoint-works|"+first+"|"+cls, "the exchange failed although an endpoint answers correctly on a permitted transport: "+opErr.Error(), d)
+			viol("C12|failed-although-endpoint-works|"+first+"|"+cls, "the exchange failed although an endpoint answers correctly on a permitted transport: "+opErr.Error(), d)
 			return
 		}
 	}
 	// bounded attempts: at most 2 x transports x KDCs per message (one message here)
 	bound := int64(2 * 2 * len(a.eps))
 	if total > bound {
-		r.Violation("C12|attempts-unbounded", fmt.Sprintf("%d connection attempts observed for one message, bound %d", total, bound), d)
+		viol("C12|attempts-unbounded", fmt.Sprintf("%d connection attempts observed for one message, bound %d", total, bound), d)
 		return
 	}
 	// coverage counters for the interesting paths
@@ -333,6 +371,33 @@ func runCase(r *vh.Run, k *simkdc.KDC, kt *keytab.Keytab, a assignment, ck strin
 	r.SampleKind(outcome+"-"+first, 1, d)
 }
 
+// recorder forwards to the run unless the case is a quiet re-run.
+type recorder struct {
+	r     *vh.Run
+	quiet bool
+}
+
+func (c recorder) Inc(k string) {
+	if !c.quiet {
+		c.r.Inc(k)
+	}
+}
+func (c recorder) Eval(k string, nt bool) {
+	if !c.quiet {
+		c.r.Eval(k, nt)
+	}
+}
+func (c recorder) Inconclusive(s string) {
+	if !c.quiet {
+		c.r.Inconclusive(s)
+	}
+}
+func (c recorder) SampleKind(k string, n int, v any) {
+	if !c.quiet {
+		c.r.SampleKind(k, n, v)
+	}
+}
+
 // carries reports whether err is the KDC's error with this code: the KRBError itself, or the client's error classified as
 // coming from the KDC (root cause KDC_Error) whose text names the code. An error of another class that merely quotes the
 // KRB-ERROR in a list of failed attempts is not the KDC's error surfaced.
@@ -344,4 +409,10 @@ func carries(err error, code int32) bool {
 		return false
 	}
 	return strings.Contains(err.Error(), fmt.Sprintf("(%d) ", code))
+}
+
+// timingSensitive: verdicts that say "the call failed although it should have worked" depend on the endpoints answering within
+// the library's fixed 5 s window, which a loaded machine can miss; they are confirmed in isolation before they count.
+func timingSensitive(fp string) bool {
+	return strings.HasPrefix(fp, "C12|failed-although-endpoint-works") || strings.HasPrefix(fp, "C12|krb-error-not-surfaced")
 }
